@@ -13,7 +13,9 @@ DRIVERS = ["drv_g3"]
 RULE = ("stream lin: single Model::linearization(T*) calls on 1-3 points anywhere on the ellipsoid (poles, equator, "
         "antimeridian), sights up to 57 deg off the horizontal, every n/e/u state combination incl. fixed n,e + free u "
         "and N != E states, stale `ind` members, corrections, instrument heights, deflections; stream parse: 2-8 records "
-        "with/without -dh children in random order, repeated and foreign children; "
+        "with/without -dh children in random order, repeated and foreign children, plus documents with an <azimuth> "
+        "record (must be refused); every angle case of stream lin is also compared with an independent right-hand side "
+        "(direction difference); every network's minx list is compared with the constrained entries of par_list; "
         "generated ECEF networks (tools/gen/c19_g3net.py): 3-7 points around a centre drawn from {generic, near either "
         "pole (1e-4..0.3 deg), a point exactly on the rotation axis, antimeridian (+-1e-6..1e-2 deg), equator, "
         "Greenwich}; n/e and u components fixed/free/constrained; vectors (single and multi-vector clusters, "
@@ -37,11 +39,20 @@ MODELLED = [
     "E_3 / R_3 primitives (e3.cpp), Point::diff_N.., X_dh, model_height, Parameter::index are hand-written Lean "
     "(Gama/Model/{Neu,G3Lin}.lean), pinned by a normalised-text comparison in the translator and by the `lin` stream",
     "angle coefficients: proved to be the derivative of the horizontal angle (difference of the direction angles in the "
-    "station's n-e plane, formed from the initial coordinates in the geodetic frame); that this angle equals the angle "
-    "between the vertical planes the right-hand side uses (instrument heights, deflection of the vertical) is checked "
-    "numerically only (`lin` derivative oracle); zenith: derivative proved for station and target; "
+    "station's n-e plane, formed from the initial coordinates in the geodetic frame); that the angle between the vertical "
+    "planes the right-hand side uses is arccos(cos(that difference)) with the same two direction angles is proved for a "
+    "station without deflection, unraised targets and zero corrections (C19_angle_rhs_same_theta); with target heights / "
+    "deflection it is checked numerically (`lin` derivative oracle and the angle right-hand-side oracle); zenith: "
+    "derivative proved for station and target; "
     "azimuth coefficients are not derivatives (cos/sin of the observed value, not divided by the distance) - azimuth "
-    "input is refused by the parser (G2), so this code is unreachable from gama-g3",
+    "input is refused by the parser (G2): proved on the regenerated parser tables (C19_azimuth_unreachable: every accepted "
+    "<obs> cluster is free of azimuth records), so this code is unreachable from gama-g3; enabling azimuth input breaks "
+    "that theorem",
+    "regularisation: the minx list (column indices of the constrained components, C19_minx_spec) and the set class Adj "
+    "regularises over (regSet: the list, all columns when no list is set - Adj::init calls min_x(n, list) only then) are "
+    "modelled; that the four solvers' default without a list is `all unknowns` is C08's",
+    "heights in the one-step theorem: the observation function is H - geoid + du (affine in the displacement along the "
+    "point's own normal); the second-order effect of a horizontal displacement on H (xyz2blh) is not modelled",
     "Ellipsoid::xyz2blh (B, L, H of a point) is an input of the frame model (C18's subject)",
     "operator<< / istringstream>> of numbers: the round-trip theorem is stated for any printer with rd (fmt x) = q x, "
     "fmt (q x) = fmt x (q = rounding to the printed digits; example: a three-decimal printer), and derived from the "
@@ -626,7 +637,7 @@ def parse_xml(recs):
     body = []
     for i, r in enumerate(recs):
         k, v = r["kind"], r["val"]
-        if k in ("distance", "zenith", "hdiff"):
+        if k in ("distance", "zenith", "hdiff", "azimuth"):
             main = "<from>A%d</from> <to>B%d</to> <val>%s</val>" % (i, i, v)
         elif k == "vector":
             main = "<from>A%d</from> <to>B%d</to> <dx>%s</dx> <dy>%s</dy> <dz>%s</dz>" % (i, i, v, v + 1, v + 2)
@@ -667,6 +678,35 @@ def parse_stream(ctx, corr, exe):
         ctx.rng.shuffle(order)
         perms.append(order)
     parse_oracles(ctx, corr, exe, cases, perms)
+    azimuth_refused_oracle(ctx, corr, exe)
+
+
+def azimuth_refused_oracle(ctx, corr, exe, docs=None):
+    """oracle on the implementation next to C19_azimuth_unreachable: a cluster with an <azimuth> record is refused
+    (its handler pushes no scale entry, DataParser::g3_obs sees obs_dim != scale.size()).  If one is accepted,
+    Model::linearization(Azimuth*) — whose coefficients are not derivatives and are specified nowhere — is reachable."""
+    if docs is None:
+        docs = []
+        for _ in range(ctx.size(12, 60)):
+            recs = [r for r in gen_parse_case(ctx.rng) if not r.get("bad")]
+            for r in recs:
+                r["opts"] = [o for o in r["opts"] if o[0] in PARSE_OPTS[r["kind"]]]
+            az = {"kind": "azimuth", "opts": [("from-dh", 1.5)] if ctx.rng.random() < 0.5 else [], "val": round(ctx.rng.uniform(1, 399), 3)}
+            recs.insert(ctx.rng.randrange(len(recs) + 1), az)
+            docs.append(recs)
+    out, crashes = run_cases(exe, [["parse " + parse_xml(r)] for r in docs])
+    for i, recs in enumerate(docs):
+        corr.count("parse documents with an azimuth record")
+        if i in crashes:
+            corr.fail("DataParser crashed (sanitizer) on an <azimuth> record", {"stream": "parse-azimuth", "records": recs},
+                      "DataParser::g3_obs_azimuth", crashes[i][1])
+        elif not any(l.startswith("throw") for l in out[i]):
+            corr.fail("a cluster with an <azimuth> record is accepted by the parser: Model::linearization(Azimuth*) is "
+                      "reachable, and its coefficients (cos / sin of the observed value, no distance) are not the "
+                      "derivative of the azimuth",
+                      {"stream": "parse-azimuth", "records": recs, "xml": parse_xml(recs)}, "DataParser::g3_obs_azimuth")
+        else:
+            corr.count("parse documents with an azimuth record refused")
 
 
 def parse_oracles(ctx, corr, exe, cases, perms):
@@ -980,11 +1020,13 @@ def replay(ctx, payload):
     f = payload.get("failure") or {}
     inp = f.get("input") or {}
     print(json.dumps({k: f.get(k) for k in ("what", "site")}, indent=1))
-    if inp.get("stream") in ("lin", "parse"):
+    if inp.get("stream") in ("lin", "parse", "parse-azimuth"):
         exe = ctx.build_cpp("c19_g3", harness_sources(ctx), libs=["-lexpat"])
         corr = Corr()
         if inp["stream"] == "lin":
             lin_oracles(ctx, corr, exe, [inp["case"]])
+        elif inp["stream"] == "parse-azimuth":
+            azimuth_refused_oracle(ctx, corr, exe, [inp["records"]])
         else:
             parse_oracles(ctx, corr, exe, [inp["records"]], [inp.get("order") or list(range(len(inp["records"])))])
         for fl in corr.failures:
